@@ -32,6 +32,8 @@ type Fact struct {
 	Val    bool
 	objs   map[*types.Var]bool
 	derefs map[*types.Var]bool
+	fields map[*types.Var]bool // struct fields the fact reads (type-based alias analysis)
+	opaque bool                // reads memory in a way not described by fields (calls, *p of non-struct, slices)
 	raw    string
 	Origin string
 }
@@ -87,6 +89,53 @@ func (fs *FactSet) killHeap() {
 				delete(fs.m, k)
 				break
 			}
+		}
+	}
+}
+
+// killField removes the facts that read struct field fld (or read memory opaquely): a store to
+// one field of a struct cannot change what another field holds.
+func (fs *FactSet) killField(fld *types.Var) {
+	for k, f := range fs.m {
+		if len(f.derefs) == 0 {
+			continue
+		}
+		if f.opaque || f.fields[fld.Origin()] {
+			delete(fs.m, k)
+		}
+	}
+}
+
+// killStructType removes facts reading any field of struct type t.
+func (fs *FactSet) killStructType(t types.Type) {
+	st, ok := t.Underlying().(*types.Struct)
+	if !ok {
+		fs.killHeap()
+		return
+	}
+	flds := map[*types.Var]bool{}
+	var collect func(st *types.Struct)
+	collect = func(st *types.Struct) {
+		for i := 0; i < st.NumFields(); i++ {
+			flds[st.Field(i).Origin()] = true
+			if es, ok := st.Field(i).Type().Underlying().(*types.Struct); ok && st.Field(i).Embedded() {
+				collect(es)
+			}
+		}
+	}
+	collect(st)
+	for k, f := range fs.m {
+		if len(f.derefs) == 0 {
+			continue
+		}
+		hit := f.opaque
+		for fl := range f.fields {
+			if flds[fl] {
+				hit = true
+			}
+		}
+		if hit {
+			delete(fs.m, k)
 		}
 	}
 }
@@ -430,8 +479,35 @@ func (fl *Flow) findFresh() {
 func (fl *Flow) newSet() *FactSet { return &FactSet{fl: fl, m: map[string]*Fact{}} }
 
 func (fl *Flow) mkFact(f *Fact, exprs ...ast.Expr) *Fact {
-	f.objs, f.derefs = map[*types.Var]bool{}, map[*types.Var]bool{}
+	f.objs, f.derefs, f.fields = map[*types.Var]bool{}, map[*types.Var]bool{}, map[*types.Var]bool{}
 	for _, e := range exprs {
+		ast.Inspect(e, func(n ast.Node) bool {
+			switch x := n.(type) {
+			case *ast.SelectorExpr:
+				if s := fl.info.Selections[x]; s != nil && s.Kind() == types.FieldVal {
+					if fv, ok := s.Obj().(*types.Var); ok {
+						f.fields[fv.Origin()] = true
+					}
+					// promoted fields pass through the embedded field as well
+					if len(s.Index()) > 1 {
+						f.opaque = true
+					}
+				}
+			case *ast.StarExpr:
+				f.opaque = true
+			case *ast.CallExpr:
+				if !isConversion(fl.info, x) && !isBuiltinCall(fl.info, x, "len") && !isBuiltinCall(fl.info, x, "cap") && !isBuiltinCall(fl.info, x, "min") && !isBuiltinCall(fl.info, x, "max") {
+					f.opaque = true
+				}
+			case *ast.IndexExpr:
+				if t := fl.info.TypeOf(x.X); t != nil {
+					if _, isSlice := t.Underlying().(*types.Slice); isSlice {
+						f.opaque = true
+					}
+				}
+			}
+			return true
+		})
 		o, d := varsOf(fl.info, e)
 		for v := range o {
 			f.objs[v] = true
@@ -750,6 +826,54 @@ func (fl *Flow) applyStore(fs *FactSet, lhs ast.Expr) {
 		return // a newly obtained object is not reachable through any other name
 	}
 	if through || v == nil || fl.escaped[v] {
+		// type-based alias analysis: which memory does the store change?
+		e := ast.Unparen(lhs)
+		for {
+			switch x := e.(type) {
+			case *ast.IndexExpr:
+				if t := fl.info.TypeOf(x.X); t != nil {
+					if _, isArr := t.Underlying().(*types.Array); isArr {
+						e = ast.Unparen(x.X)
+						continue
+					}
+					if p, isPtr := t.Underlying().(*types.Pointer); isPtr {
+						if _, isArr := p.Elem().Underlying().(*types.Array); isArr {
+							e = ast.Unparen(x.X)
+							continue
+						}
+					}
+				}
+			case *ast.SliceExpr:
+				e = ast.Unparen(x.X)
+				continue
+			}
+			break
+		}
+		switch x := e.(type) {
+		case *ast.SelectorExpr:
+			if s := fl.info.Selections[x]; s != nil && s.Kind() == types.FieldVal && len(s.Index()) == 1 {
+				if fv, ok := s.Obj().(*types.Var); ok {
+					fs.killField(fv)
+					// storing a whole struct into a field also changes the fields of that struct
+					if _, isStruct := fv.Type().Underlying().(*types.Struct); isStruct {
+						fs.killStructType(fv.Type())
+					}
+					if arr, isArr := fv.Type().Underlying().(*types.Array); isArr {
+						if _, isStruct := arr.Elem().Underlying().(*types.Struct); isStruct {
+							fs.killStructType(arr.Elem())
+						}
+					}
+					return
+				}
+			}
+		case *ast.StarExpr:
+			if t := fl.info.TypeOf(x); t != nil {
+				if _, isStruct := t.Underlying().(*types.Struct); isStruct {
+					fs.killStructType(t)
+					return
+				}
+			}
+		}
 		fs.killHeap()
 	}
 }
